@@ -51,8 +51,14 @@ class Origin(Attribute):
         (2) If the ORIGIN attribute has an undefined value, then the Error Sub-code
         MUST be set to Invalid Origin Attribute. The Data field MUST contain the
         unrecognized attribute (type,length, and vlaue)
+        (3) the ORIGIN attribute is exactly one octet long, any other length is an
+        Attribute Length Error
         :param value: raw binary value
         """
+        if len(value) != 1:
+            raise excep.UpdateMessageError(
+                sub_error=bgp_cons.ERR_MSG_UPDATE_ATTR_LEN,
+                data=value)
         orgin = ord(value[0:1])
         if orgin not in [cls.IGP, cls.EGP, cls.INCOMPLETE]:
             raise excep.UpdateMessageError(
